@@ -45,6 +45,7 @@ type TimedRun struct {
 	Events []hapi.Event
 	SentAt map[byte]int64
 	Final  *hapi.Snapshot
+	Mid    []*hapi.Snapshot // state just before each scripted step (short scripts only)
 	RT     *vrt.RT
 }
 
@@ -93,6 +94,9 @@ func ExecTimed(tc *TimedCase) (*TimedRun, string) {
 				continue
 			}
 			vrt.AdvanceTo(st.At)
+			if len(steps) <= 10 {
+				run.Mid = append(run.Mid, node.Snapshot())
+			}
 			issue(st)
 		}
 		// deferred steps: poll once per 100 virtual ms
@@ -125,6 +129,24 @@ func judgeTimed(prefix string, tc *TimedCase, run *TimedRun) []explore.Violation
 	var vs []explore.Violation
 	if run.RT.Crash != nil {
 		return []explore.Violation{{Sig: "crash", Msg: run.RT.Crash.Value + "\n" + firstLines(run.RT.Crash.Stack, 20)}}
+	}
+	for i, sn := range append(append([]*hapi.Snapshot{}, run.Mid...), run.Final) {
+		if sn == nil {
+			continue
+		}
+		for _, d := range sn.DBs {
+			if d.Misfiled > 0 {
+				when := "at the end"
+				if i < len(run.Mid) {
+					when = fmt.Sprintf("just before scripted step %d", i+1)
+				}
+				vs = append(vs, explore.Violation{Sig: prefix + ":timer-table-corrupt", Msg: fmt.Sprintf("%s the timer tables of db%d are inconsistent:%s", when, d.DB, d.MisfiledDetail)})
+				break
+			}
+		}
+		if len(vs) > 0 {
+			break
+		}
 	}
 	byReq := map[byte][]hapi.Event{}
 	for _, e := range run.Events {
